@@ -146,7 +146,8 @@ VOID_ENTRIES = [
 def void_jobs(tier, tags, ub, timeout, quick_subset):
     d = _defs(6, MINISTL_STR_CAP=24, MINISTL_VEC_CAP=3, GR_CODE=8, GR_REGS=4, GR_SYMS=2, GR_FUNCS=2, GR_SITES=2, GR_PERR=2, GR_MARKS=3, GR_INT=3)
     ents = VOID_ENTRIES if not quick_subset else [e for e in VOID_ENTRIES if e[0] in quick_subset]
-    return [_job(e, d, _stubs({DISPATCH_VOID: 'stub_void', R_ARGS: 'stub_args'}), SOLVER, 10, tags, ub, timeout,
+    # (a generator that follows an absent node makes the query slow instead of quick: give it time to report the violation)
+    return [_job(e, d, _stubs({DISPATCH_VOID: 'stub_void', R_ARGS: 'stub_args'}), SOLVER, 10, tags, ub, max(timeout, 700),
                  'layer B, real traversal function on one node with the traversal of its children replaced by an observing stub: ' + a,
                  'one node of the stated kind with the children the parser guarantees (tree invariant in harness/gen_rules.cpp part 6); names concrete; holds for trees of any size by induction over the height',
                  ['dispatchVoid', 'dispatchValue', 'dispatchAssign', 'dispatchLoop', 'dispatchWhile', 'dispatchMark', 'dispatchGoto', 'dispatchIf', 'dispatchProgram', 'dispatchArgs', 'dispatchCallArgs', 'gen_ast'], rec=(R_ARGS, R_CALLARGS, R_VALUE, DISPATCH_VOID))
@@ -298,6 +299,16 @@ def funcaddrs_frame_check(repo):
 
 
 # ------------------------------------------------------------------------------------------------ running and merging
+MODEL_NOTES = [
+    'generator obligations (lib/genh.py, harness/gen_rules.cpp): names, table contents and operands are symbolic, the COUNTS (arguments, parameters, statements, instructions emitted before) are constants of each obligation; '
+    'names come from three-letter alphabets (f/g/h, a/b/c, l/m): the generator only copies and compares names, the alphabets cover first/middle/last insertion positions of its maps',
+    'environment models used by these obligations: strtol on literals of at most 3 digits (literal conversion is C20); std::to_string exact for 0..999, otherwise a string flagged as truncated; the text of diagnostics '
+    '(std::operator+ on strings, except where dispatchLoop builds its counter name) is not modelled and flagged as truncated - comparing a flagged string is a model-bound failure, so no verdict can depend on it',
+    'Inv_reg (temporaries are named "Temporary Variable", variable registers are in use, not temporary and named otherwise) is assumed for register files of pre-states and shown to be preserved by every register operation and by compiling a call',
+    'CBMC runs with --slice-formula (assignments outside the cone of influence of the assertions are dropped), the cadical back end and, where names are symbolic, --no-array-field-sensitivity; these affect speed only',
+]
+
+
 def _retag_replays(prop, out, n0):
     """counterexamples of these harnesses are local generator states without a native twin of the harness: make their replay files
     re-decidable by `check.py --replay` through this module"""
@@ -327,7 +338,7 @@ def static_rule_obligations(prop, tier, seed, wd, out):
     """C04: static rules of the generator"""
     plan = [('call', ['h_call_0', 'h_call_1n', 'h_call_2nc', 'h_call_2cn']), ('labels', ['h_labels_fwd', 'h_labels_back'])]
     jobs = _run(prop, tier, wd, out, plan)
-    return {'gen_obligations': len(jobs), 'gen_static_rules': ['UNKNOWN_PROGRAM_NAME <=> callee not a key of funcAddrs (closed definitions)', 'ARGSIZE_MISMATCH <=> known callee, argument count != parameter count',
+    return {'gen_obligations': len(jobs), 'gen_model_notes': MODEL_NOTES, 'gen_static_rules': ['UNKNOWN_PROGRAM_NAME <=> callee not a key of funcAddrs (closed definitions)', 'ARGSIZE_MISMATCH <=> known callee, argument count != parameter count',
                                                                'UNKNOWN_MARK <=> a label referenced in the routine is never set in it', 'range error <=> literal >= 2^31-1: C20']}
 
 
@@ -338,7 +349,7 @@ def obligations(prop, tier, seed, wd, out):
         out.inconclusive.append('premise of the no-recursion induction not confirmed on the text of gen.cpp: ' + p)
     plan = [('program', ['h_program_noports', 'h_program_1out', 'h_program_2']), ('call', ['h_call_0', 'h_call_2nc'])]
     jobs = _run(prop, tier, wd, out, plan)
-    return {'gen_obligations': len(jobs), 'gen_frame_check': facts,
+    return {'gen_obligations': len(jobs), 'gen_frame_check': facts, 'gen_model_notes': MODEL_NOTES,
             'gen_induction': 'Inv_fa: every entry of funcAddrs is the start of a routine whose RET is already emitted (entry <= RET index < code size). Established by dispatchProgram (recorded only after RET; the table is '
                              'untouched while the body is compiled, so the routine cannot call itself and a redefined name stays bound to the earlier routine), preserved by emit (append only) and by removeTopPotBreak (pops '
                              'breakpoint sites only, C08); used by dispatchValue(CALL): EXEC entry = recorded entry < own index. Hence every EXEC targets a routine closed before the call was compiled: the call graph is acyclic.'}
@@ -349,7 +360,11 @@ def wf_emit_obligations(prop, tier, seed, wd, out):
     plan = [('regs', None), ('call', ['h_call_0', 'h_call_1c', 'h_call_2nn', 'h_call_2cn']), ('program', ['h_program_noports', 'h_program_1', 'h_program_2out']),
             ('labels', ['h_labels_fwd', 'h_labels_back']), ('void', ['harness_void_assign', 'harness_void_loop', 'harness_void_while', 'harness_void_jumps', 'harness_void_program']), ('frame', None)]
     jobs = _run(prop, tier, wd, out, plan)
-    return {'gen_obligations': len(jobs)}
+    return {'gen_obligations': len(jobs), 'gen_model_notes': MODEL_NOTES,
+            'gen_wf_argument': 'call sequences: PREPARE(count = recorded frame size, index = recorded stack map, target), ARG k = 0..n-1 with k < argnum <= frame size, EXEC(recorded entry), contiguous (h_call_*); '
+                               'recorded frame size = final register count, RET register and stack map keys below it, entry right after the JMP over the routine, JMP listed and its label set (h_program_*); every JMP/JMPC of GOTO, IF, '
+                               'LOOP, WHILE is listed and patched to the recorded position inside its routine, every created label is set or reported (h_labels_*, harness_void_loop/while/jumps); register indices are below the size '
+                               'of the register file, which never shrinks (h_regs_*); gen() patches the root PREPARE, appends HALT and runs backpatch (h_gen_frame)'}
 
 
 def c02_jobs(prop, tier, wd):
